@@ -119,7 +119,11 @@ func (r *RateLimit) ServeDNS(ctx context.Context, ch *middleware.Chain) {
 	l := r.getLimiter(w.RemoteIP())
 	cachedcookie = l.cookie.Load().(string)
 
-	if opt := req.IsEdns0(); opt != nil {
+	// Cookies are an EDNS(0) option: a query in a version this server does not
+	// speak is owed BADVERS by edns (RFC 6891 §6.1.3), not a BADCOOKIE built on
+	// an option whose meaning that version does not define. It still pays its
+	// token below.
+	if opt := req.IsEdns0(); opt != nil && opt.Version() == 0 {
 		for _, option := range opt.Option {
 			if option.Option() == dns.EDNS0COOKIE {
 				if len(option.String()) >= cookieSize {
@@ -178,7 +182,7 @@ func (r *RateLimit) serveWire(ctx context.Context, ch *middleware.Chain) {
 	l := r.getLimiter(w.RemoteIP())
 	cachedcookie := l.cookie.Load().(string)
 
-	if echo := ch.Request.CookieEcho(); echo != nil {
+	if echo := ch.Request.CookieEcho(); echo != nil && ch.Request.EDNSVersion() == 0 {
 		fullcookie := hex.EncodeToString(echo)
 		clientcookie := fullcookie[:cookieSize]
 		servercookie := dnsutil.GenerateServerCookie(r.cookiesecret, w.RemoteIP().String(), clientcookie)
